@@ -96,6 +96,7 @@ type VEntry struct {
 	Half
 	Value *big.Rat
 	Adj   bool
+	Trx   int // entries with the same Trx belong to one (expanded or adjustment) transaction
 }
 
 // ValueJournal produces the valued transaction list of a journal in V (App.
@@ -151,6 +152,7 @@ func valueJournal(ds []Directive, v string, ideal bool) ([]VEntry, *MissingPrice
 		priceDay[d] = true
 	}
 	cur := map[string]*big.Rat(nil)
+	trxID := 0
 	for _, day := range order {
 		if priceDay[day] || cur == nil {
 			if priceDay[day] {
@@ -178,15 +180,17 @@ func valueJournal(ds []Directive, v string, ideal bool) ([]VEntry, *MissingPrice
 				}
 				g := tr(Mul(delta, qty[k]))
 				mirror := ValuationAccount(k.acc)
+				trxID++
 				entries = append(entries,
-					VEntry{Half: Half{Date: day, Account: k.acc, Other: mirror, Qty: new(big.Rat), Com: k.com, Src: -1}, Value: g, Adj: true},
-					VEntry{Half: Half{Date: day, Account: mirror, Other: k.acc, Qty: new(big.Rat), Com: k.com, Src: -1}, Value: Neg(g), Adj: true})
+					VEntry{Half: Half{Date: day, Account: k.acc, Other: mirror, Qty: new(big.Rat), Com: k.com, Src: -1}, Value: g, Adj: true, Trx: trxID},
+					VEntry{Half: Half{Date: day, Account: mirror, Other: k.acc, Qty: new(big.Rat), Com: k.com, Src: -1}, Value: Neg(g), Adj: true, Trx: trxID})
 			}
 		}
 		for ti < len(ts) && ts[ti].Date == day {
+			trxID++
 			for _, h := range ts[ti].Halves() {
 				if h.Qty.Sign() == 0 {
-					entries = append(entries, VEntry{Half: h, Value: new(big.Rat)})
+					entries = append(entries, VEntry{Half: h, Value: new(big.Rat), Trx: trxID})
 					continue
 				}
 				if IsAL(h.Account) {
@@ -197,14 +201,14 @@ func valueJournal(ds []Directive, v string, ideal bool) ([]VEntry, *MissingPrice
 					qty[k].Add(qty[k], h.Qty)
 				}
 				if h.Com == v {
-					entries = append(entries, VEntry{Half: h, Value: new(big.Rat).Set(h.Qty)})
+					entries = append(entries, VEntry{Half: h, Value: new(big.Rat).Set(h.Qty), Trx: trxID})
 					continue
 				}
 				p, ok := cur[h.Com]
 				if !ok {
 					return entries, &MissingPrice{Com: h.Com, Date: day}
 				}
-				entries = append(entries, VEntry{Half: h, Value: tr(Mul(h.Qty, p))})
+				entries = append(entries, VEntry{Half: h, Value: tr(Mul(h.Qty, p)), Trx: trxID})
 			}
 			ti++
 		}
